@@ -271,7 +271,25 @@ class Sym(object):
         self.job.bounds["file:" + name] = {"max_size": max_size}
         path = "/psx-symfile/" + name
         self.I.options.setdefault("symfiles", {})[path] = t
+        self._file_names = getattr(self, "_file_names", {})
+        self._file_names[path] = name
+        self.I.options.setdefault("symfile_versions", {})[path] = 0
+        self.I.options.setdefault("symfile_mtimes", {})[path] = self._mtime_var(name, 0)
         return path, SymInt(t)
+
+    def _mtime_var(self, name, version):
+        key = "%s.mtime%d" % (name, version)
+        t = z3.Int("in." + key)
+        self.I.add_side([t >= 0, t <= 2 ** 31 - 1])
+        self.vars[key] = ("int", t)
+        return t
+
+    def rewrite_file(self, path):
+        """the file is rewritten in place: other content of the same size; its modification time (whole seconds) is arbitrary -
+        it may well be the same second, or be preserved by the tool that patched the file"""
+        vs = self.I.options["symfile_versions"]
+        vs[path] += 1
+        self.I.options["symfile_mtimes"][path] = self._mtime_var(self._file_names[path], vs[path])
 
     def scratch_dir(self):
         """a fresh real directory (outside /repo and /verif), removed when the job ends"""
